@@ -32,7 +32,10 @@ SELFTEST = [
     {"mutation": "apply_pending: `pending.replace <= now` -> `>=`", "caught_by": "apply_pending/eviction only after timeout"},
     {"mutation": "apply_pending: status(Position(0)) == Connected -> Disconnected", "caught_by": "apply_pending/eviction only if head not Connected"},
     {"mutation": "status closure `pos.0 >= i` -> `pos.0 > i`", "caught_by": "status/closure is pos >= boundary"},
-    {"mutation": "KBucketsTable::entry: apply_pending moved after Entry::new", "caught_by": "table/entry: apply_pending precedes Entry::new"},
+    {"mutation": "update: `pos == Position(0) && status == Connected` -> `||`", "caught_by": "update/pending dropped only if the head (Position(0)) was updated"},
+    {"mutation": "apply_pending closure#1 `p.checked_sub(1)` -> `Some(p)`", "caught_by": "apply_pending/connected pending: boundary moves down by one"},
+    {"mutation": "Entry::new: `bucket.as_pending(key)` -> `bucket.pending()`", "caught_by": "table/Entry::Pending only if as_pending(key) is Some"},
+    {"mutation": "KBucketsTable::entry: `BucketIndex::new(..)?` -> `.unwrap_or(BucketIndex(0))`", "caught_by": "table/entry: no bucket is touched for the local key (index None)"},
 ]
 
 KB = r"^libp2p_kad::kbucket::bucket::KBucket::"
@@ -308,7 +311,10 @@ def check_apply(ctx, prog, b):
         a = cnt(b, pc, rets, rm), cnt(b, pc, rets, pushes), cnt(b, pc, rets, inserts), cnt(b, pc, rets, [x for x, _, _ in fx])
         ctx.ob("apply_pending", "connected pending: one eviction, one push at the end, boundary adjusted once", a == ((1, 1), (1, 1), (0, 0), (1, 1)), W, "remove %s push %s insert %s boundary writes %s" % a)
         for s, k, t in fx:
-            ctx.ob("apply_pending", "boundary written only in the connected-pending arm", s.bb in b.reachable(pc) and (not pd or s.bb not in b.reachable(pd)), s.loc(), k)
+            inarm = s.bb in b.reachable(pc) and (not pd or s.bb not in b.reachable(pd))
+            ctx.ob("apply_pending", "boundary written only in the connected-pending arm", inarm, s.loc(), "%s %s" % (k, t[:120]))
+            if not inarm:
+                continue
             ok = k == "set" and re.match(r"^std::option::Option::map_or_else\(self\.first_connected_pos, closure:.*\[self\.nodes\], closure:.*\[\]\)$", t) is not None
             ctx.ob("apply_pending", "connected pending: boundary := fcp.map_or_else(len, p-1)", ok, s.loc(), t[:200])
             cr = lk.closure_ret(prog, b, b.site_expr(s))
